@@ -36,6 +36,7 @@ def main(argv):
             src = open(path).read()
             if m['old'] not in src:
                 results.append((m['id'], m['property'], 'STALE (old text not found)', ''))
+                print(*results[-1], flush=True)
                 continue
             open(path, 'w').write(src.replace(m['old'], m['new'], 1))
             tests = 'skipped'
@@ -53,9 +54,7 @@ def main(argv):
             subprocess.run(['git', '-C', '/repo', 'worktree', 'remove', '--force', scratch + '/r'], capture_output=True)
             shutil.rmtree(scratch, ignore_errors=True)
         print(*results[-1], flush=True)
-    # evidence files were rewritten by runs against mutated code: regenerate on the real tree
-    print('NOTE: re-run the affected checks on /repo to restore their evidence files:',
-          ' '.join(sorted({r[1] for r in results})))
+    # (evidence of these runs went to <scratch>/_evidence: /verif/evidence only describes runs against /repo)
     missed = [r for r in results if 'caught' not in r[2]]
     return 1 if missed else 0
 
